@@ -443,6 +443,11 @@ var solvers = []solverDef{
 	{"cvc5", func(f string, t int) []string {
 		return []string{"cvc5", "--produce-models", fmt.Sprintf("--tlimit=%d", t*1000), f}
 	}},
+	// array extensionality switched off: only drops axioms, so `unsat` answers remain sound; `sat` answers of this member
+	// are not models of the full theory and are discarded (see runSolver)
+	{"z3-new-noext", func(f string, t int) []string {
+		return []string{"z3-new", "smt.array.extensional=false", fmt.Sprintf("-T:%d", t), f}
+	}},
 }
 
 type solveResult struct {
@@ -477,6 +482,9 @@ func runSolver(ctx context.Context, sd solverDef, file string, timeoutS int) sol
 		if cctx.Err() != nil {
 			st = "timeout"
 		}
+	}
+	if sd.name == "z3-new-noext" && st == "sat" {
+		st = "unknown"
 	}
 	return solveResult{st, sd.name, s, time.Since(start).Seconds()}
 }
